@@ -29,6 +29,7 @@ TYPE_DOPS: Dict[str, Dict[str, Any]] = {
             "dtcs": [{"name": "d1", "code": 0x1234}, {"name": "d2", "code": 0x5678}, {"name": "d3", "code": 0x9ABC}]},
 }
 OWN_DID_FLAG = 0x0080
+OWN_PAD = 0xEE  # constant byte in front of the payload of a variant's own re-definition of a service
 
 
 def fg_dops() -> List[Dict[str, Any]]:
@@ -78,7 +79,9 @@ def service_parts(svc: Dict[str, Any], layer: str, own: bool, dop_layer: str):
                      {"t": "CODED-CONST", "name": "did", "dct": U16, "value": did}]}
     pr = {"kind": "POS-RESPONSE", "name": "PR_" + name,
           "params": [{"t": "CODED-CONST", "name": "sid", "dct": U8, "value": 0x62},
-                     {"t": "CODED-CONST", "name": "did", "dct": U16, "value": did}] + payload_params(svc, layer, "PR_" + name)}
+                     {"t": "CODED-CONST", "name": "did", "dct": U16, "value": did}]
+          + ([{"t": "CODED-CONST", "name": "pad", "dct": U8, "value": OWN_PAD}] if own else [])
+          + payload_params(svc, layer, "PR_" + name)}
     s = {"name": name, "request": "RQ_" + name, "pos": ["PR_" + name], "neg": ["NR"]}
     return [rq, pr], s
 
@@ -150,11 +153,12 @@ def variants_db(services: Dict[str, Dict[str, Any]], cands: Sequence[Dict[str, A
                 m, s = service_parts(services[sn], name, True, "FG")
                 for msg in m:
                     for p in msg["params"]:
-                        if "dop" in p:
+                        if "dop" in p or p["t"] == "TABLE-KEY":
                             p["snref"] = True
-                s = dict(s, neg=[])  # the shared NEG-RESPONSE is an FG object; the global negative response still applies
                 omsgs += m
                 osvcs.append(s)
-            lay.update(msgs=omsgs, svcs=osvcs)
+            nr = neg_response()  # the layer's own copy of the negative response (ID <layer>.NR)
+            nr["params"][2]["snref"] = True
+            lay.update(msgs=[nr] + omsgs, svcs=osvcs)
         layers.append(lay)
     return {"containers": [{"name": "VM", "layers": layers}]}
